@@ -65,7 +65,8 @@ CLAIMS.update({
             "(sections, required-sections, routing) against callee contracts + Chart.from_filepath + rxvc header-pattern obligations + SMT lemmas over the from_file postcondition",
             "For every well-framed file (any number of sections, distinct tags, any bodies): each section's parser receives exactly its body lines; Song/SyncTrack/Events feed metadata/tempo/global events; "
             "every header naming a (instrument, difficulty) pair (table proved to be the 40 '<Difficulty><Instrument>' names, injective) feeds the track stored under and labelled with that pair; "
-            "a missing required section raises ValueError (two-sided). Order independence, unknown-section independence (and the warning) are lemmas over that postcondition. "
+            "a missing required section raises ValueError (two-sided). Order independence, unknown-section independence (and the warning) are lemmas over that postcondition "
+            "(assuming congruence: a section parser's result depends on the content of its lines only). The one-shot iterators handed to the section parsers are proved to be consumed at most once (frame obligations). "
             "LF/CRLF and BOM independence rest on the ASSUMED library contracts of str.splitlines and open(encoding='utf-8-sig') (listed in evidence.assumptions); the call sites are checked to use them.",
             "C06"),
     "C13": ("pyvc VCs of the real Chart.from_file routing loop (selection filter, per-section track construction via the callee's result function) + SMT lemmas over the postcondition + fxvc frames",
@@ -122,7 +123,10 @@ def main():
              "kind_free_text": "pyvc: verification-condition generator over the real chartparse AST (re-read every run) against sidecar contracts, discharged by z3/cvc5; lemmas over the contracts; rxvc regex obligations; fxvc frame/escape obligations"},
         ],
         "checks": checks,
-        "notes": "Exit 0 held / 1 violation (VIOLATION line, replay file) / 3 checker problem. Undecided obligations are never violations: the run exits 0 with evidence level 'other'. /repo fix: commits are listed in KNOWN_FINDINGS.",
+        "notes": "Exit 0 held / 1 violation (VIOLATION line, replay file) / 3 checker problem. Undecided obligations are never violations: the run exits 0 with evidence level 'other' "
+                 "after the bounded stand-in of the undecided unit found no failing input. Thorough tier: 120 s per obligation, large bounded budgets, and a native cross-check "
+                 "(generated inputs through the real function against the contract) of every unit whose obligations were discharged; bounded results are reported separately and never counted as proof. "
+                 "/repo fix: commits are listed in KNOWN_FINDINGS. Seeded changes and behaviour-preserving refactorings used to test the checks: /verif/seeded (DESIGN.md 8.3).",
         "not_applicable": na,
     }
     json.dump(m, open(os.path.join(HERE, "MANIFEST.json"), "w"), indent=1)
